@@ -74,9 +74,10 @@ def gen_spec(rng, thorough=False, force=None):
 		if force.get('policy'):
 			pt = force['policy']
 		if pt in ('BS', 'EBS'):
-			pol = {'t': pt, 'a': fr(gen_value(rng, 0, 25, True))}
+			# a negative base-stock level is legal (a planned backlog; it arises for upstream stages when echelon levels are converted to local ones)
+			pol = {'t': pt, 'a': fr(gen_value(rng, -8, -1, True) if rng.random() < force.get('pnegS', .1) else gen_value(rng, 0, 25, True))}
 		elif pt == 'sS':
-			s = gen_value(rng, 0, 10, True)
+			s = gen_value(rng, -4, -1, True) if rng.random() < force.get('pnegS', .1) else gen_value(rng, 0, 10, True)
 			pol = {'t': 'sS', 'a': fr(s), 'b': fr(s + gen_value(rng, 0, 12, True))}
 		elif pt == 'rQ':
 			pol = {'t': 'rQ', 'a': fr(gen_value(rng, 0, 10, True)), 'b': fr(gen_value(rng, 1, 12, True))}
